@@ -190,11 +190,13 @@ class _Tunnel(Interface):
         if self.auto_reconnect:
             # _tunnel_lost might be called multiple times when the transport receives
             # multiple invalid frames - ensure only one reconnect task is started
-            if self._reconnect_task is None:
+            # a finished task is only cleaned up by its done-callback in a later loop iteration
+            if self._reconnect_task is None or self._reconnect_task.done():
 
-                def _reconnect_task_cleanup(_: asyncio.Task[None]) -> None:
+                def _reconnect_task_cleanup(task: asyncio.Task[None]) -> None:
                     """Cleanup task so we don't need to check `done()` or do it explicitly everywhere."""
-                    self._reconnect_task = None
+                    if self._reconnect_task is task:
+                        self._reconnect_task = None
 
                 self._reconnect_task = asyncio.create_task(self._reconnect())
                 self._reconnect_task.add_done_callback(_reconnect_task_cleanup)
